@@ -264,6 +264,13 @@ def step (c : Ctx) (line : String) : Ctx × String :=
       let r := pInfer c.fkb nodes u d eps mx c.pstate
       (c.setPState r.state, s!"n {r.steps} {showRat r.total} {if r.converged then 1 else 0}")
     | _, _, _, _, _ => bad
+  | ["finfer", eps, mx, nodes, ups, downs, qry] =>
+    -- restricted to a query that stops inference once classically resolved
+    match parseRat eps, mx.toNat?, parseIds nodes, parseFCalls "up" ups, parseFCalls "down" downs, qry.toNat? with
+    | some eps, some mx, some nodes, some u, some d, some q =>
+      let r := pInferQ c.fkb nodes u d eps (some q) mx c.pstate
+      (c.setPState r.state, s!"n {r.steps} {showRat r.total} {if r.converged then 1 else 0}")
+    | _, _, _, _, _, _ => bad
   | ["ftab", ids] =>
     match parseIds ids with
     | some l => (c, "t " ++ " ".intercalate (l.map fun i => showTab i (c.fstate.get i)))
